@@ -434,6 +434,31 @@ func c12GenPipe(g *Gen) {
 		b.batches()
 		emit("pipe-truncate-shared", pc)
 	}
+	// (b') the three witnesses of defect 19 as the Coq theorems state them (C12_truncate_shared_refuted,
+	// C12_truncate_static_fault_refuted) and the level-name variant
+	for w := 0; w < 3; w++ {
+		b := c12NewPipe(r)
+		pc := b.pc
+		pc.NOut, pc.MinPool, pc.MaxMsg, pc.MaxRec, pc.GC = 1, 48, 200, 456, 0
+		pc.Extract = []c12Tx{{Kind: 0, S: c12Stx{Kind: 7, Keys: []int{7}}}}
+		switch w {
+		case 0:
+			pc.Transforms = []c12Tx{{Kind: 0, S: c12Stx{Kind: 1, Dst: 9, Site: b.lit("abc€defghijk")}},
+				{Kind: 0, S: c12Stx{Kind: 5, Key: 9, MaxLen: 5, Suffix: b.lit("..")}}}
+		case 1:
+			pc.Transforms = []c12Tx{{Kind: 0, S: c12Stx{Kind: 5, Key: 0, MaxLen: 2, Suffix: b.lit("~")}}}
+		default:
+			pc.Transforms = []c12Tx{{Kind: 0, S: c12Stx{Kind: 5, Key: 1, MaxLen: 1, Suffix: b.lit("~")}}}
+		}
+		pc.Outs = []c12Out{{Env: []int{3}}}
+		in := []byte("<163>1 2019-08-15T15:50:46Z host1 app 123 src - hello world, this is a message")
+		in2 := []byte("<165>1 2019-08-15T15:50:46Z host2 app 123 src - a notice, then the first record again")
+		for _, x := range [][]byte{in, in2, in, in2} {
+			b.addRecord(x)
+		}
+		pc.Batches = []int{1, 1, 2}
+		emit("pipe-defect19-witness", pc)
+	}
 	// (c) a stream and a permutation of it on the same configuration (the per-record results must be the same set;
 	// checked through the fresh-pipeline oracle on both)
 	for i := 0; i < g.Pick(40, 800); i++ {
